@@ -68,12 +68,59 @@ T = {
  'C20-3': ('rpc/server', 'TestDemo3', 'omitempty on every RemoteQueryResult field', 'rows with an empty, non-nil key in a non-pushdown cluster query', 'strengthened', 'C20.e'),
 }
 
+# round 2 (two per property, sub-agents again given only the property text): /tmp/seedout2
+T2 = {
+ 'C01-r2-1': ('.', 'TestDemo1Sorted', 'fileStore.flush passes okayToReuseBuffer=true also on sorted flushes', 'MaxMemoryRatio > 0, a forced flush, >= 2 file rows without pending memstore update', 'strengthened', 'C01.g (= C03.b buffer-reuse clause)'),
+ 'C01-r2-2': ('.', 'TestDemo2Cluster', 'sortedPartitionKeys sorts a copy instead of the caller\'s slice', 'cluster with >= 2 partitions, partitionby with >= 2 keys not in alphabetical order', 'strengthened', 'C01.g (= C10.c)'),
+ 'C02-r2-1': ('.', 'TestDemo1Kill', 'flush/offset temp files are created inside the table directory', 'a kill between the temp file\'s close and its rename', 'strengthened', 'C02.i'),
+ 'C02-r2-2': ('.', 'TestDemo2Follower', 'follower de-duplicates leader deliveries per source instead of per table', 'a follower killed between the flushes of two tables on one stream', 'strengthened', 'C02.j (= C12.a)'),
+ 'C03-r2-1': ('.', 'TestDemo1Alter', 'the row store adopts the new fields only after the ALTER-triggered flush', 'ALTER with unflushed data in the memstore', 'strengthened', 'C03.g (= C15.c)'),
+ 'C03-r2-2': ('.', 'TestDemo2Sorted', 'sorted flush reuses the read buffer while raw rows are retained by the sorter', 'MaxMemoryRatio > 0, forced flush, >= 2 untouched file rows', 'strengthened', 'C03.b'),
+ 'C04-r2-1': ('.', 'TestDemo1Query', 'a memstore being flushed is shared with queries; the first contribution to a group is taken as the result', 'a query during a flush over a key present in both stores', 'initial', 'C04.a + C04.i'),
+ 'C04-r2-2': ('.', 'TestDemo2Query', 'the query row loop may force memstore flushes when over the memory cap', 'MaxMemoryRatio > 0 and a query under memory pressure', 'strengthened', 'C04.c'),
+ 'C05-r2-1': ('encoding', 'TestDemo1Shift', 'shifted sub-merger strides by the width of the SHIFTed expression instead of the stored field\'s', 'SHIFT over a composite expression in a roll-up', 'strengthened', 'C05.e'),
+ 'C05-r2-2': ('encoding', 'TestDemo2Merge', 'Sequence.Merge returns the receiver instead of the newer operand when the older one is entirely expired', 'a dormant key that reports again after its stored series expired', 'strengthened', 'C05.e'),
+ 'C06-r2-1': ('.', 'TestDemo1Cluster', 'pushdownAllowed trusts any parameter of a GROUP BY expression (WalkParams)', 'cluster, GROUP BY a derived dimension of the partition key', 'strengthened', 'C06.f (= C11.b)'),
+ 'C06-r2-2': ('.', 'TestDemo2Coarse', 'group.Iterate reuses err for the tree walk and loses the scan error', 'coarser grouping over a scan that fails (damaged file store)', 'strengthened', 'C06.g (= C13.a, initially only under C13)'),
+ 'C07-r2-1': ('.', 'TestDemo1Coalesced', 'Sequence.Truncate reslices its input instead of copying', 'two coalesced windowed queries over memstore data', 'strengthened', 'C07.d (purity)'),
+ 'C07-r2-2': ('.', 'TestDemo2Empty', 'resolutionFor clamps a window-truncated resolution up to the table resolution', 'ASOF at or after UNTIL (empty or inverted window)', 'strengthened', 'C07.e'),
+ 'C08-r2-1': ('planner', 'TestDemo1Two', 'planSubQueries goroutines capture the range variables (go 1.12 semantics)', 'a WHERE with two or more IN-subqueries', 'strengthened', 'C08.e'),
+ 'C08-r2-2': ('planner', 'TestDemo2Having', 'group.Iterate appends _having before the CROSSTABT total columns', 'CROSSTABT together with HAVING', 'strengthened', 'C08.f'),
+ 'C09-r2-1': ('.', 'TestC09Demo1', 'addHaving returns a newly built FlatRow (no field list)', 'HAVING plus ORDER BY on a field', 'strengthened', 'C09.g'),
+ 'C09-r2-2': ('planner', 'TestC09Demo2', 'the sub-query ORDER/LIMIT/OFFSET test sits after the bottom-level return of pushdownAllowed (ported to HEAD after F23)', 'cluster, FROM-subquery with ORDER BY or LIMIT', 'strengthened', 'C09.f (= C11.b per-level clause)'),
+ 'C10-r2-1': ('.', 'TestDemo1Cluster', 'doFollowLeaders records the table\'s offset before the hand-over select', 'a table created on a running follower while entries are in flight', 'strengthened', 'C10.i (= C12.a, initially only under C12)'),
+ 'C10-r2-2': ('.', 'TestDemo2Mixed', 'table.insert skips the follower partition re-check for tables without PartitionBy', '>= 2 partitions, one stream feeding a keyed and a key-less table', 'strengthened', 'C10.h (= C01.b every-follower-entry clause)'),
+ 'C11-r2-1': ('planner', 'TestDemo1Nested', 'the nested IN-subquery guard is applied to the first FROM level only', 'IN-subquery two or more FROM levels down, >= 2 partitions', 'initial', 'C11.e'),
+ 'C11-r2-2': ('planner', 'TestDemo2NonOne', 'WalkOneToOneParams became WalkParams at the table level', 'GROUP BY SUBSTR(partition key)', 'initial', 'C11.b'),
+ 'C12-r2-1': ('.', 'TestC12Demo1', 'follower.submit uses a non-blocking send and marks the follower failed on a full queue', 'a slow follower and a burst larger than MaxFollowQueue', 'strengthened', 'C12.k'),
+ 'C12-r2-2': ('.', 'TestC12Demo2', 'sortedPartitionKeys sorts a copy', 'partitionby: [b, a]', 'strengthened', 'C12.j (= C10.c, initially only under C10)'),
+ 'C13-r2-1': ('.', 'TestC13Demo1', 'group.Iterate overwrites the scan error with the tree walk\'s nil', 'GROUP BY over a scan stopped by the memory cap', 'initial', 'C13.a'),
+ 'C13-r2-2': ('rpc/server', 'TestC13Demo2', 'HandleRemoteQueries treats io.EOF from the follower stream as a clean end', 'a stale follower handler after a NextQueryTimeout reconnect', 'strengthened', 'C13.h'),
+ 'C14-r2-1': ('.', 'TestDemo1Flush', 'Sequence.Merge discards the older operand when its OLDEST period is expired', 'a series straddling the retention boundary on disk, a new point, a flush', 'strengthened', 'C14.e'),
+ 'C14-r2-2': ('.', 'TestDemo2Expired', 'flush-time truncation extracted into a helper that loses the write-back', 'a key that stays live while older periods expire', 'initial', 'C14.b (shape: the Truncate call left doWrite; keep/drop rule)'),
+ 'C15-r2-1': ('.', 'TestDemo1Added', 'rs.fields adopted after the ALTER-triggered flush', 'ALTER on a non-empty memstore', 'initial', 'C15.c'),
+ 'C15-r2-2': ('.', 'TestDemo2NewWhere', 'applyWhere compares renderings and keeps the old WHERE when they print alike', 'a WHERE corrected only in its quoting', 'strengthened', 'C15.f'),
+ 'C16-r2-1': ('.', 'TestDemo1IllTyped', 'doInsert evaluates WHERE while holding whereMutex.RLock with explicit unlocks', 'an ill-typed dimension (Eval panics, recovered) followed by an ALTER', 'strengthened', 'C16.g'),
+ 'C16-r2-2': ('planner', 'TestDemo2ClusterQuery', 'concatForCrosstab copies with sql[start:idx+1]', 'leader mode, the word crosstab outside a call', 'strengthened', 'C16.f'),
+ 'C17-r2-1': ('.', 'TestDemo1Queries', 'iterations arriving during a coalesce window are handed over grouped by table only', '>= 3 queries on two tables in one window', 'initial', 'C17.f (floor: the coalescing append shape is gone)'),
+ 'C17-r2-2': ('.', 'TestDemo2Queries', 'the union of requested fields is de-duplicated by Name', 'queries prepared before and after an ALTER that redefines a field, in one window', 'initial', 'C17.c (anchor: the membership test is gone)'),
+ 'C18-r2-1': ('.', 'TestDemo1Array', 'each further value of an array point is applied under its own lock acquisition', 'an array-valued point and a memstore query during its application', 'initial', 'C18.b'),
+ 'C18-r2-2': ('.', 'TestDemo2QueryAfter', 'cached memstore copy invalidated on insert but not on flush', 'memstore query, flush without insert, memstore query', 'initial', 'C18.a'),
+ 'C19-r2-1': ('rpc/server', 'TestDemo1Remote', 'authorize moved into a stream interceptor that exempts client-streaming methods', 'a password and a caller registering a remote-query handler without it', 'initial', 'C19.a'),
+ 'C19-r2-2': ('web', 'TestDemo2Forged', 'cookie keys generated by rand.Read into a zero-length buffer', 'OAuth configured, cookie keys unset', 'strengthened', 'C19.d'),
+ 'C20-r2-1': ('rpc/server', 'TestDemo1', 'the receive loop of HandleRemoteQueries reuses one message object', 'a partition returning > 1 row and the merger lagging behind the receiver', 'strengthened', 'C20.g'),
+ 'C20-r2-2': ('rpc/server', 'TestDemo2Fresh', 'ProcessRemoteQuery derives the deadline context from stream.Context() again, dropping IncludeMemStore', 'a fresh query with a deadline on a cluster', 'strengthened', 'C20.h'),
+}
+
 def main():
     os.makedirs(DST, exist_ok=True)
     n = 0
-    for key, (ddir, pat, what, needs, status, rule) in sorted(T.items()):
-        prop, k = key.split('-')
-        src = os.path.join(SRC, prop)
+    allT = dict(T)
+    allT.update(T2)
+    for key, (ddir, pat, what, needs, status, rule) in sorted(allT.items()):
+        parts = key.split('-')
+        prop, k = parts[0], parts[-1]
+        src = os.path.join('/tmp/seedout2' if 'r2' in parts else SRC, prop)
         cj = os.path.join(src, 'confirm%s.json' % k)
         if not os.path.exists(cj):
             print('skip (no confirmation yet):', key)
@@ -85,7 +132,13 @@ def main():
         d = os.path.join(DST, key)
         os.makedirs(d, exist_ok=True)
         applied = os.path.join(src, 'confirm%s.applied.diff' % k)
-        shutil.copy(applied if os.path.exists(applied) and os.path.getsize(applied) > 0 else os.path.join(src, 'change%s.diff' % k), os.path.join(d, 'patch.diff'))
+        ported = None
+        try:
+            ported = json.load(open(os.path.join(d, 'meta.json'))).get('ported')
+        except Exception:
+            pass
+        if not ported:
+          shutil.copy(applied if os.path.exists(applied) and os.path.getsize(applied) > 0 else os.path.join(src, 'change%s.diff' % k), os.path.join(d, 'patch.diff'))
         demo = os.path.join(src, 'demo%s_test.go' % k)
         shutil.copy(demo, os.path.join(d, 'demo_test.go.txt'))
         notes = os.path.join(src, 'NOTES.md')
@@ -106,6 +159,12 @@ def main():
             'detection': {'status': status, 'by': rule},
             'origin': 'independent sub-agent given only the property text and a scratch worktree',
         }
+        if ported:
+            meta['ported'] = ported
+        vs = os.path.join('/tmp/vsout', key + '.json')
+        if os.path.exists(vs):
+            meta['confirmed']['server_package_isolated'] = json.load(open(vs))
+            meta['confirmed']['server_note'] = 'server.TestServers uses fixed ports; it was re-run alone in a private network namespace (tools/verify_server.sh) with the change applied; ClusterComplex.2 and ClusterMultiLeader.1 are the subtests the baseline lists as stable'
         json.dump(meta, open(os.path.join(d, 'meta.json'), 'w'), indent=1)
         n += 1
     print('collected', n)
